@@ -146,6 +146,12 @@ TIES = [
     ('verify_data_blocks', 'src/mtbl_verify.c', 'verify_data_blocks', ALL, ['C12']),
     ('verify_file', 'src/mtbl_verify.c', 'verify_file', ALL, ['C12']),
     ('writer_destroy', 'mtbl/writer.c', 'mtbl_writer_destroy', ALL, ['C18']),
+    ('writer_flush', 'mtbl/writer.c', '_mtbl_writer_flush', ALL, ['C13', 'C09']),
+    ('writer_compress_block', 'mtbl/writer.c', '_mtbl_writer_compress_block', ALL, ['C13', 'C09']),
+    ('writer_compress_wrapper', 'mtbl/writer.c', '_compress_block_wrapper', ALL, ['C13']),
+    ('writer_write_wrapper', 'mtbl/writer.c', '_write_data_block_wrapper', ALL, ['C13']),
+    ('sorter_collect_cb', 'mtbl/sorter.c', '_collect_readers_cb', ALL, ['C13', 'C06']),
+    ('sorter_temp_file_wrapper', 'mtbl/sorter.c', '_write_temp_file_wrapper', ALL, ['C13']),
     ('reader_init', 'mtbl/reader.c', 'mtbl_reader_init', ALL, ['C18']),
     ('reader_destroy', 'mtbl/reader.c', 'mtbl_reader_destroy', ALL, ['C18']),
     ('reader_iter_free', 'mtbl/reader.c', 'reader_iter_free', ALL, ['C18']),
